@@ -63,6 +63,8 @@ class Canon:
         self.with_defs: Dict[str, ast.expr] = {}
         self.pos_text: Dict[str, str] = {}     # positional loop indices: text used when they appear outside a subscript
         self.loop_order: Dict[str, int] = {}   # loop variable -> ordinal of its first loop (name-independent placeholder)
+        self.loop_first: Dict[str, tuple] = {}  # loop variable -> (target, iterable) of its first loop
+        self._outside_busy: Set[str] = set()
         self._loopstack: List[Dict[str, str]] = []
         for n in walk_no_nested(fn):
             if isinstance(n, ast.Assign):
@@ -84,6 +86,7 @@ class Canon:
                     if isinstance(x, ast.Name):
                         self.loopnames.add(x.id)
                         self.loop_order.setdefault(x.id, len(self.loop_order))
+                        self.loop_first.setdefault(x.id, (n.target, n.iter))
             elif isinstance(n, ast.With):
                 for it in n.items:
                     if isinstance(it.optional_vars, ast.Name):
@@ -236,6 +239,18 @@ class Canon:
                         return ast.Name(id=canon._loop_text(n.id, depth), ctx=ast.Load())
                     if n.id in canon.loop_order and n.id not in canon.params:
                         # a loop variable seen outside a walker's loop scope: positional placeholder, independent of its name
+                        # ... named by what its (first) loop ranges over, like inside the loop: each(<iterable>)
+                        if n.id in canon.loop_first and n.id not in canon._outside_busy and depth < 4:
+                            canon._outside_busy.add(n.id)
+                            saved = dict(canon.loopvars)
+                            try:
+                                tg, it = canon.loop_first[n.id]
+                                canon._bind_loop(tg, it)
+                                if n.id in canon.loopvars:
+                                    return ast.Name(id=canon._loop_text(n.id, depth), ctx=ast.Load())
+                            finally:
+                                canon.loopvars = saved
+                                canon._outside_busy.discard(n.id)
                         return ast.Name(id=f"loopvar{canon.loop_order[n.id]}", ctx=ast.Load())
                     if n.id in canon.single and depth < 4:
                         return canon._inline(copy.deepcopy(canon.single[n.id]), depth + 1)
@@ -273,16 +288,25 @@ class Canon:
                     return ast.Name(id=f"each({inner})", ctx=ast.Load())
                 return self.generic_visit(n)
 
+            def visit_Attribute(self, n):
+                n = self.generic_visit(n)
+                if isinstance(n, ast.Attribute) and n.attr in ("ndim", "ndims") and isinstance(n.ctx, ast.Load):
+                    # the number of modes has one spelling: X.ndim (arrays) ~ X.ndims (tensor classes) ~ len(X.shape)
+                    return ast.Call(func=ast.Name(id="len", ctx=ast.Load()), args=[ast.Attribute(value=n.value, attr="shape", ctx=ast.Load())], keywords=[])
+                return n
+
             def visit_Call(self, n):
                 n = self.generic_visit(n)
                 fname = dotted(n.func) or ""
+                # np.any / np.all as functions:  (A != B).any() ~ np.any(A != B)
+                if isinstance(n.func, ast.Attribute) and n.func.attr in ("any", "all") and not n.args and not n.keywords \
+                        and isinstance(n.func.value, (ast.Compare, ast.BinOp, ast.BoolOp, ast.UnaryOp)):
+                    n = ast.Call(func=ast.Attribute(value=ast.Name(id="np", ctx=ast.Load()), attr=n.func.attr, ctx=ast.Load()), args=[n.func.value], keywords=[])
+                    fname = dotted(n.func) or ""
                 # range(0, x) ~ range(x), np.arange(0, x) ~ np.arange(x);  X.transpose() ~ X.T
                 if fname in ("range", "np.arange", "numpy.arange") and len(n.args) == 2 and not n.keywords and const(n.args[0]) == 0 \
                         and isinstance(n.args[0], ast.Constant) and n.args[0].value is not False:
                     n.args = [n.args[1]]
-                if fname == "len" and len(n.args) == 1 and not n.keywords and isinstance(n.args[0], ast.Attribute) and n.args[0].attr == "shape" \
-                        and isinstance(n.args[0].value, ast.Name) and n.args[0].value.id == "self":
-                    return ast.Attribute(value=n.args[0].value, attr="ndims", ctx=ast.Load())     # the tensor classes define ndims = len(shape)
                 if fname == "len" and len(n.args) == 1 and not n.keywords:
                     a0 = n.args[0]
                     while isinstance(a0, ast.Call) and (dotted(a0.func) or "") in ("tuple", "list") and len(a0.args) == 1 and not a0.keywords:
@@ -292,6 +316,22 @@ class Canon:
                     n.args = [a0]
                 if isinstance(n.func, ast.Attribute) and n.func.attr == "transpose" and not n.args and not n.keywords:
                     return ast.Attribute(value=n.func.value, attr="T", ctx=ast.Load())
+                return n
+
+            def visit_Compare(self, n):
+                n = self.generic_visit(n)
+                # np.sum(B, axis=k) > 0  ~  np.any(B, axis=k)   for a boolean array B (a count of True entries is positive iff there is one)
+                if isinstance(n, ast.Compare) and len(n.ops) == 1:
+                    l, op, r = n.left, n.ops[0], n.comparators[0]
+                    cnt = None
+                    if isinstance(op, (ast.Gt, ast.NotEq)) and const(r) == 0 and isinstance(r, ast.Constant) and r.value is not False:
+                        cnt = l
+                    elif isinstance(op, (ast.Lt, ast.NotEq)) and const(l) == 0 and isinstance(l, ast.Constant) and l.value is not False:
+                        cnt = r
+                    if isinstance(cnt, ast.Call) and (dotted(cnt.func) or "") in ("np.sum", "numpy.sum", "np.count_nonzero", "numpy.count_nonzero") \
+                            and cnt.args and _boolean_valued(cnt.args[0]):
+                        return ast.Call(func=ast.Attribute(value=ast.Name(id="np", ctx=ast.Load()), attr="any", ctx=ast.Load()),
+                                        args=cnt.args, keywords=cnt.keywords)
                 return n
 
             def visit_ListComp(self, n):
@@ -389,7 +429,33 @@ def atoms_of(test: ast.expr, truth: bool, c: Canon) -> List[FrozenSet[Atom]]:
         folded = _fold_constant_compare(test)
         if folded is not None:
             return [frozenset({f"const({folded == truth})"})] if (folded == truth) else []
+    # a conditional expression anywhere inside the test (directly, or through a local that is defined by one): two cases
+    split = _split_conditional(test, c)
+    if split is not None:
+        cond, if_true, if_false = split
+        expanded = ast.BoolOp(op=ast.Or(), values=[
+            ast.BoolOp(op=ast.And(), values=[cond, if_true]),
+            ast.BoolOp(op=ast.And(), values=[ast.UnaryOp(op=ast.Not(), operand=cond), if_false])])
+        return atoms_of(expanded, truth, c)
+    # x in (A, B)  ~  x == A or x == B ;  x not in (A, B)  ~  x != A and x != B      (short literal collections)
+    coll = test.comparators[0] if isinstance(test, ast.Compare) and len(test.ops) == 1 else None
+    if isinstance(coll, ast.Name) and coll.id in c.single and isinstance(c.single[coll.id], (ast.Tuple, ast.List, ast.Set)) and coll.id not in c.loopvars:
+        coll = c.single[coll.id]          # a named collection (supported = (a, b, c))
+    if isinstance(test, ast.Compare) and len(test.ops) == 1 and isinstance(test.ops[0], (ast.In, ast.NotIn)) \
+            and isinstance(coll, (ast.Tuple, ast.List, ast.Set)) and 1 <= len(coll.elts) <= 5 \
+            and not any(isinstance(x, ast.Starred) for x in coll.elts):
+        eqs = [ast.Compare(left=test.left, ops=[ast.Eq()], comparators=[x]) for x in coll.elts]
+        pos = ast.BoolOp(op=ast.Or(), values=eqs) if len(eqs) > 1 else eqs[0]
+        return atoms_of(pos, truth == isinstance(test.ops[0], ast.In), c)
+    # np.all(A == B)  ~  not np.any(A != B)   (exact complement, also with NaN); one polarity for both
+    dual = _all_as_any(test, c)
+    if dual is not None:
+        return atoms_of(dual, not truth, c)
     lit = _lit(test, truth, c)
+    # not isinstance(x, (A, B))  ~  not isinstance(x, A) and not isinstance(x, B)
+    m = re.fullmatch(r"!isinstance\((.*), ([A-Za-z_0-9|]+)\)", lit)
+    if m and "|" in m.group(2):
+        return [frozenset(f"!isinstance({m.group(1)}, {t})" for t in m.group(2).split("|"))]
     # counts are non-negative integers:  1 < n  ~  n != 0 and n != 1 ;  not (1 < n)  ~  n == 0 or n == 1   (likewise n < 2)
     m = re.fullmatch(r"(!?)lt\(1, (.*)\)", lit)
     if m and _nonneg(m.group(2)):
@@ -400,6 +466,107 @@ def atoms_of(test: ast.expr, truth: bool, c: Canon) -> List[FrozenSet[Atom]]:
         t = m.group(2)
         return [frozenset({f"eq(0, {t})"}), frozenset({f"eq(1, {t})"})] if not m.group(1) else [frozenset({f"!eq(0, {t})", f"!eq(1, {t})"})]
     return [frozenset({lit})]
+
+
+def _split_conditional(test: ast.expr, c: "Canon"):
+    """(condition, test with the conditional replaced by its first arm, ... by its second arm) for the first conditional expression
+    inside `test`, directly or inside the definition of a singly-assigned local it reads (lambdas / comprehensions excluded);
+    None when there is none."""
+    if isinstance(test, ast.IfExp):
+        return None      # a conditional AS the test is handled by its truthiness
+
+    def has_cond(e, depth=0, seen=()):
+        for n in ast.walk(e):
+            if isinstance(n, ast.IfExp):
+                return True
+            if depth < 3 and isinstance(n, ast.Name) and isinstance(n.ctx, ast.Load) and n.id in c.single and n.id not in c.loopvars \
+                    and n.id not in seen and has_cond(c.single[n.id], depth + 1, seen + (n.id,)):
+                return True
+        return False
+
+    if not has_cond(test):
+        return None
+
+    class Expand(ast.NodeTransformer):
+        def __init__(self, depth=0, seen=()):
+            self.depth, self.seen = depth, seen
+
+        def visit_Name(self, n):
+            if self.depth < 3 and isinstance(n.ctx, ast.Load) and n.id in c.single and n.id not in c.loopvars and n.id not in self.seen \
+                    and has_cond(c.single[n.id], self.depth + 1, self.seen + (n.id,)):
+                return Expand(self.depth + 1, self.seen + (n.id,)).visit(copy.deepcopy(c.single[n.id]))
+            return n
+
+        def visit_Lambda(self, n):
+            return n
+
+        visit_ListComp = visit_GeneratorExp = visit_SetComp = visit_DictComp = visit_Lambda
+
+    work = Expand().visit(copy.deepcopy(test))
+    found = []
+
+    def find(n):
+        if found or isinstance(n, (ast.Lambda, ast.ListComp, ast.GeneratorExp, ast.SetComp, ast.DictComp)):
+            return
+        if isinstance(n, ast.IfExp):
+            found.append(n)
+            return
+        for ch in ast.iter_child_nodes(n):
+            find(ch)
+    if isinstance(work, ast.IfExp):
+        return None
+    find(work)
+    if not found:
+        return None
+    node = found[0]
+
+    def replaced(arm):
+        class R(ast.NodeTransformer):
+            def visit(self, n):
+                if n is node:
+                    return copy.deepcopy(arm)
+                return self.generic_visit(n)
+        # `work` is private to this call; replace on a structural copy made by the transformer itself
+        saved = copy.deepcopy(arm)
+
+        def rebuild(n):
+            if n is node:
+                return copy.deepcopy(saved)
+            if isinstance(n, ast.AST):
+                kw = {}
+                for fld, val in ast.iter_fields(n):
+                    if isinstance(val, list):
+                        kw[fld] = [rebuild(x) for x in val]
+                    else:
+                        kw[fld] = rebuild(val)
+                new = type(n)(**kw)
+                return ast.copy_location(new, n) if hasattr(n, "lineno") else new
+            return n
+        return rebuild(work)
+    return node.test, replaced(node.body), replaced(node.orelse)
+
+
+def _all_as_any(test: ast.expr, c: "Canon") -> Optional[ast.expr]:
+    """np.all(A == B) / (A == B).all() / np.array_equal-free forms  ->  np.any(A != B)  (to be read with the opposite truth value)."""
+    t = test
+    if isinstance(t, ast.Name) and t.id in c.single and isinstance(c.single[t.id], ast.Call) and _depth_ok(c, t.id):
+        t = c.single[t.id]
+    if not isinstance(t, ast.Call) or t.keywords:
+        return None
+    inner = None
+    name = dotted(t.func) or ""
+    if name in ("np.all", "numpy.all") and len(t.args) == 1:
+        inner = t.args[0]
+    elif isinstance(t.func, ast.Attribute) and t.func.attr == "all" and not t.args:
+        inner = t.func.value
+    if inner is None:
+        return None
+    if isinstance(inner, ast.Name) and inner.id in c.single and _depth_ok(c, inner.id):
+        inner = c.single[inner.id]
+    if isinstance(inner, ast.Compare) and len(inner.ops) == 1 and isinstance(inner.ops[0], (ast.Eq, ast.NotEq)):
+        flipped = ast.Compare(left=inner.left, ops=[ast.NotEq() if isinstance(inner.ops[0], ast.Eq) else ast.Eq()], comparators=inner.comparators)
+        return ast.Call(func=ast.Attribute(value=ast.Name(id="np", ctx=ast.Load()), attr="any", ctx=ast.Load()), args=[flipped], keywords=[])
+    return None
 
 
 def _fold_constant_compare(test: ast.Compare) -> Optional[bool]:
@@ -476,6 +643,20 @@ def _lit(test: ast.expr, truth: bool, c: Canon) -> Atom:
     if _nonneg(txt):
         return f"{'!' if truth else ''}eq(0, {txt})"         # `if x.size:`  ~  `if x.size != 0:`
     return f"{'' if truth else '!'}truthy({txt})"
+
+
+def _boolean_valued(e: ast.AST) -> bool:
+    """An element-wise truth value: comparisons and their combinations with | & ~ / np.logical_* / np.isin / np.isnan ..."""
+    if isinstance(e, ast.Compare):
+        return True
+    if isinstance(e, ast.BinOp) and isinstance(e.op, (ast.BitOr, ast.BitAnd, ast.BitXor)):
+        return _boolean_valued(e.left) and _boolean_valued(e.right)
+    if isinstance(e, ast.UnaryOp) and isinstance(e.op, (ast.Invert, ast.Not)):
+        return _boolean_valued(e.operand)
+    if isinstance(e, ast.Call):
+        return (dotted(e.func) or "").split(".")[-1] in ("logical_and", "logical_or", "logical_not", "logical_xor", "isin", "isnan", "isinf",
+                                                         "isfinite", "equal", "not_equal", "less", "greater", "less_equal", "greater_equal")
+    return False
 
 
 def _nonneg(t: str) -> bool:
@@ -691,10 +872,26 @@ def simplify(conds: FrozenSet[Atom]) -> FrozenSet[Atom]:
         if a.startswith("!isinstance("):
             subj = _split2(a[len("!isinstance("):-1])[0]
             if subj in pos_inst:
-                continue
+                continue            # (the positive atom on the same subject is narrowed below)
         if a == "const(True)":
             continue
         out.add(a)
+    # isinstance(s, A|B|C) together with not isinstance(s, A): the positive atom keeps the types that are left
+    excluded: Dict[str, Set[str]] = {}
+    for a in conds:
+        if a.startswith("!isinstance("):
+            subj, ty = _split2(a[len("!isinstance("):-1])
+            excluded.setdefault(subj, set()).update(ty.split("|"))
+    if excluded:
+        narrowed = set()
+        for a in out:
+            if a.startswith("isinstance("):
+                subj, ty = _split2(a[len("isinstance("):-1])
+                left = [t for t in ty.split("|") if t not in excluded.get(subj, ())]
+                if left and len(left) < len(ty.split("|")):
+                    a = f"isinstance({subj}, {'|'.join(left)})"
+            narrowed.add(a)
+        out = narrowed
     return frozenset(out)
 
 
@@ -770,12 +967,28 @@ def contradicts(a: Atom, b: Atom) -> bool:
     return False
 
 
+# concrete types no two of which have a common instance (bool < int, np.float64 < float and the numpy scalar hierarchy are NOT here)
+DISJOINT_TYPES = {"int", "str", "list", "tuple", "dict", "set", "ndarray", "slice", "tensor", "sptensor", "ktensor", "ttensor", "tenmat",
+                  "sptenmat", "sumtensor", "StratifiedCount", "spmatrix", "coo_matrix"}
+
+
 def implies(a: Atom, b: Atom) -> bool:
     """Atom a implies atom b: equal, or isinstance over a subset of the types (and the contrapositive)."""
     if a == b:
         return True
     na, fa, xa = _atom_parts(a)
     nb, fb, xb = _atom_parts(b)
+    # s == K1 implies s != K2 for two different constants
+    if fa == fb == "eq" and not na and nb and len(xa) == 2 and len(xb) == 2:
+        for s1, k1 in ((xa[0], xa[1]), (xa[1], xa[0])):
+            for s2, k2 in ((xb[0], xb[1]), (xb[1], xb[0])):
+                if s1 == s2 and not _constant_like(s1) and _constant_like(k1) and _constant_like(k2) and k1 != k2:
+                    return True
+    # isinstance(s, A|B) implies not isinstance(s, C) when C is known to share no instances with A and B
+    if fa == fb == "isinstance" and not na and nb and len(xa) == 2 and len(xb) == 2 and xa[0] == xb[0]:
+        ta, tb = set(xa[1].split("|")), set(xb[1].split("|"))
+        if ta <= DISJOINT_TYPES and tb <= DISJOINT_TYPES and not (ta & tb):
+            return True
     if fa == fb == "isinstance" and na == nb and len(xa) == 2 and len(xb) == 2 and xa[0] == xb[0]:
         ta, tb = set(xa[1].split("|")), set(xb[1].split("|"))
         return ta <= tb if not na else tb <= ta
@@ -797,6 +1010,12 @@ def _consistent(s: FrozenSet[Atom]) -> bool:
     for i, a in enumerate(items):
         for b in items[i + 1:]:
             if contradicts(a, b):
+                return False
+    # isinstance(x, A|B) with every one of its types excluded
+    for a in items:
+        if a.startswith("isinstance("):
+            subj, types = _split2(a[len("isinstance("):-1])
+            if all(f"!isinstance({subj}, {t})" in s for t in types.split("|")):
                 return False
     return True
 
@@ -825,6 +1044,17 @@ def _dedupe(pcs):
 
 
 # ---------------------------------------------------------------------- acceptance predicates
+def _always_leaves(body: List[ast.stmt]) -> bool:
+    if not body:
+        return False
+    last = body[-1]
+    if isinstance(last, (ast.Return, ast.Raise)):
+        return True
+    if isinstance(last, ast.If):
+        return _always_leaves(last.body) and _always_leaves(last.orelse)
+    return False
+
+
 def accept_alternatives(fi: FuncInfo) -> Optional[List[FrozenSet[Atom]]]:
     """For a bool-returning validator: the alternative condition sets under which it answers True."""
     c = Canon(fi.node)
@@ -838,6 +1068,11 @@ def accept_alternatives(fi: FuncInfo) -> Optional[List[FrozenSet[Atom]]]:
             if isinstance(st, ast.If):
                 walk(st.body, _cross(pcs, atoms_of(st.test, True, c)))
                 walk(st.orelse, _cross(pcs, atoms_of(st.test, False, c)))
+                # a branch that always leaves: what follows runs under the other outcome of the test
+                if _always_leaves(st.body) and not _always_leaves(st.orelse):
+                    pcs = _cross(pcs, atoms_of(st.test, False, c))
+                elif _always_leaves(st.orelse) and not _always_leaves(st.body):
+                    pcs = _cross(pcs, atoms_of(st.test, True, c))
             elif isinstance(st, ast.Assign) and len(st.targets) == 1 and isinstance(st.targets[0], ast.Name) \
                     and isinstance(st.value, ast.Constant) and isinstance(st.value.value, bool):
                 if st.value.value:
